@@ -56,10 +56,10 @@ fn parse_chain(e: &Expr) -> Option<Chain> {
     None
 }
 
-pub struct Lower { pub n: usize, pub sites: usize, pub vec_params: Vec<String> }
+pub struct Lower { pub n: usize, pub sites: usize, pub vec_params: Vec<String>, pub last_sink_name: Option<(String, syn::Ident)> }
 
 impl Lower {
-    pub fn new(vec_params: Vec<String>) -> Self { Lower { n: 0, sites: 0, vec_params } }
+    pub fn new(vec_params: Vec<String>) -> Self { Lower { n: 0, sites: 0, vec_params, last_sink_name: None } }
     fn fresh(&mut self, p: &str) -> syn::Ident { let i = format_ident!("__{}{}", p, self.n); self.n += 1; i }
 
     // bind `pat` to value expression `val`, eliminating `&x` reference patterns (rule P)
@@ -112,15 +112,15 @@ impl Lower {
         let (init, step, result): (TokenStream, TokenStream, TokenStream) = match &sink {
             Sink::ForLoop(p, b) => { let bd = self.bind(p, quote!(#it)); let stmts = &b.stmts; (quote!(), quote!({ #bd #(#stmts)* }), quote!(())) }
             Sink::ForEach(c) => { let call = self.inline(c, vec![quote!(#it)]); (quote!(), quote!(#call;), quote!(())) }
-            Sink::Fold(i, c) => { let acc = self.fresh("acc"); let call = self.inline(c, vec![quote!(#acc), quote!(#it)]);
+            Sink::Fold(i, c) => { let acc = self.fresh("acc"); self.last_sink_name = Some(("acc".into(), acc.clone())); let call = self.inline(c, vec![quote!(#acc), quote!(#it)]);
                 (quote!(let mut #acc = #i;), quote!(#acc = #call;), quote!(#acc)) }
-            Sink::All(c) => { let r = self.fresh("res"); let call = self.inline(c, vec![quote!(#it)]);
+            Sink::All(c) => { let r = self.fresh("res"); self.last_sink_name = Some(("res".into(), r.clone())); let call = self.inline(c, vec![quote!(#it)]);
                 (quote!(let mut #r = true;), quote!(if !(#call) { #r = false; break; }), quote!(#r)) }
-            Sink::Any(c) => { let r = self.fresh("res"); let call = self.inline(c, vec![quote!(#it)]);
+            Sink::Any(c) => { let r = self.fresh("res"); self.last_sink_name = Some(("res".into(), r.clone())); let call = self.inline(c, vec![quote!(#it)]);
                 (quote!(let mut #r = false;), quote!(if #call { #r = true; break; }), quote!(#r)) }
-            Sink::Count => { let r = self.fresh("cnt"); (quote!(let mut #r: usize = 0;), quote!(#r += 1;), quote!(#r)) }
-            Sink::Collect => { let r = self.fresh("out"); (quote!(let mut #r = Vec::new();), quote!(#r.push(#it);), quote!(#r)) }
-            Sink::Find(c) => { let r = self.fresh("res"); let call = self.inline(c, vec![quote!(&#it)]);
+            Sink::Count => { let r = self.fresh("cnt"); self.last_sink_name = Some(("cnt".into(), r.clone())); (quote!(let mut #r: usize = 0;), quote!(#r += 1;), quote!(#r)) }
+            Sink::Collect => { let r = self.fresh("out"); self.last_sink_name = Some(("out".into(), r.clone())); (quote!(let mut #r = Vec::new();), quote!(#r.push(#it);), quote!(#r)) }
+            Sink::Find(c) => { let r = self.fresh("res"); self.last_sink_name = Some(("res".into(), r.clone())); let call = self.inline(c, vec![quote!(&#it)]);
                 (quote!(let mut #r = None;), quote!(if #call { #r = Some(#it); break; }), quote!(#r)) }
             Sink::TryFold(init, c) => {
                 // in-place accumulator form: init must be `&mut PLACE`, every `Some(..)` returned by the closure
@@ -140,7 +140,7 @@ impl Lower {
                 let mut pl = Payload { acc: acc_ident, n: 0 };
                 pl.visit_expr_mut(&mut c2.body);
                 if pl.n == 0 { panic!("vx: try_fold closure does not return its accumulator"); }
-                let r = self.fresh("tf");
+                let r = self.fresh("tf"); self.last_sink_name = Some(("tf".into(), r.clone()));
                 let call = self.inline(&c2, vec![quote!(&mut #place), quote!(#it)]);
                 (quote!(let mut #r: Option<()> = Some(());), quote!(if (#call).is_none() { #r = None; break; }), quote!(#r)) }
         };
@@ -177,12 +177,18 @@ impl Lower {
             };
         }
         let first_item = if shared_first { item_shared } else { item_real };
+        // names marker: lets contract files refer to this loop's generated locals as $k, $n, $it, $e, $res, $out, $acc
+        let mut nm: Vec<TokenStream> = vec![quote!(k = #k), quote!(n = #n), quote!(it = #it)];
+        if let Some(Some(c)) = counters.iter().find(|c| c.is_some()) { nm.push(quote!(e = #c)); }
+        if let Some(s) = &self.last_sink_name { let (key, id) = s; let key = format_ident!("{}", key); nm.push(quote!(#key = #id)); }
+        self.last_sink_name = None;
         let e: Expr = parse_quote!({
             #init
             #(#pre_inits)*
             let #n: usize = #len;
             let mut #k: usize = 0;
             while #k < #n {
+                __vx_names!(#(#nm),*);
                 let #it = #first_item;
                 #inner
                 #k += 1;
@@ -247,7 +253,7 @@ impl VisitMut for Lower {
                 let i = self.fresh("ri");
                 let call = self.inline(&c, vec![quote!(&#v[#i])]);
                 self.sites += 1;
-                Some(parse_quote!({ let mut #i: usize = 0; while #i < #v.len() { if #call { #i += 1; } else { #v.remove(#i); } } }))
+                Some(parse_quote!({ let mut #i: usize = 0; while #i < #v.len() { __vx_names!(ri = #i); if #call { #i += 1; } else { #v.remove(#i); } } }))
             }
             // rule M (call site): a lazy chain passed as `&mut CHAIN` is materialised and the callee's
             // vector instance is called instead
@@ -257,7 +263,8 @@ impl VisitMut for Lower {
                     let mat = self.emit(&ch, Sink::Collect);
                     let f = c.func.to_token_stream().to_string().replace(' ', "");
                     let nf: Expr = syn::parse_str(&format!("{}__vec", f)).unwrap();
-                    Some(parse_quote!(#nf(&#mat)))
+                    let mv = self.fresh("m");
+                    Some(parse_quote!({ let #mv = #mat; #nf(&#mv) }))
                 } else { None }
             }
             Expr::MethodCall(m) => self.try_lower_call(m),
